@@ -5,6 +5,7 @@ package internal
 import (
 	"context"
 	"fmt"
+	"runtime"
 	"sort"
 	"sync/atomic"
 	"testing"
@@ -37,8 +38,9 @@ type plCase struct {
 	MaxSize    int      `json:"maxsize"`
 	Pool       bool     `json:"entry_pool"`
 	Doorkeeper bool     `json:"doorkeeper,omitempty"`
-	Loading    bool     `json:"loading,omitempty"` // a LoadingStore sits on the store; 'set' steps flagged Load go through its Get
-	Pending    int      `json:"pending"`           // max events in flight (= concurrent clients)
+	Loading    bool     `json:"loading,omitempty"`     // a LoadingStore sits on the store; 'set' steps flagged Load go through its Get
+	WaitMarker bool     `json:"wait_marker,omitempty"` // C20: every delivered batch also carries the marker of a real Wait call whose caller observes the cache the moment it is woken
+	Pending    int      `json:"pending"`               // max events in flight (= concurrent clients)
 	Keys       int      `json:"keys"`
 	Steps      []plStep `json:"steps"`
 	Order      []int    `json:"order"` // delivery order at the final quiescence
@@ -220,6 +222,9 @@ type plRun struct {
 	// classes
 	reordered, delBeforeInsert, evictBetweenDelete, raced bool
 	// loading store on top (cases with Loading)
+	nCalls            atomic.Int64 // listener calls so far (read by the Wait caller of a marker batch)
+	slow              atomic.Bool  // the listener sleeps 300 us per call while a marker batch is applied
+	waited            bool
 	ls                *LoadingStore[int, int]
 	loadVal, loadCost int
 	loadTTL           int64
@@ -278,10 +283,59 @@ func (r *plRun) deliver(i int) *verifkit.Failure {
 	}
 	r.pool = append(r.pool[:i:i], r.pool[i+1:]...)
 	r.poolInc = append(r.poolInc[:i:i], r.poolInc[i+1:]...)
+	// C20: a real Wait call whose marker travels in the same batch as this event; its caller looks at
+	// the cache the moment it is woken, and nothing may happen in the rest of the batch after that
+	var marker WriteBufItem[int, int]
+	var woke chan [2]int64
+	if r.c.WaitMarker {
+		woke = make(chan [2]int64, 1)
+		go func() {
+			r.s.Wait()
+			woke <- [2]int64{r.nCalls.Load(), int64(r.s.Len())}
+		}()
+		deadline := time.Now().Add(10 * time.Second)
+		for got := false; !got; {
+			select {
+			case it := <-r.s.writeChan:
+				if it.code == WAIT {
+					marker, got = it, true
+				} else {
+					r.pool = append(r.pool, it)
+					r.poolInc = append(r.poolInc, nil)
+				}
+			default:
+				runtime.Gosched()
+				if time.Now().After(deadline) {
+					f := r.failf("harness/marker", "the marker of a Wait call did not arrive on the write queue")
+					f.Sticky = true
+					return f
+				}
+			}
+		}
+		r.waited = true
+	}
 	r.s.policyMu.Lock()
 	r.s.writeBuffer = append(r.s.writeBuffer[:0], item)
+	if woke != nil {
+		r.s.writeBuffer = append(r.s.writeBuffer, marker)
+		r.slow.Store(true)
+	}
 	r.s.drainWrite()
+	r.slow.Store(false)
+	after := [2]int64{r.nCalls.Load(), int64(r.s.Len())}
 	r.s.policyMu.Unlock()
+	if woke != nil {
+		select {
+		case at := <-woke:
+			if at != after {
+				return r.failf("barrier/work-after-wake", "a Wait caller whose marker travelled with this event was woken when %d notifications had been delivered and Len was %d; when the batch was finished there were %d notifications and Len %d: evictions caused by writes before the Wait happened after it returned", at[0], at[1], after[0], after[1])
+			}
+		case <-time.After(10 * time.Second):
+			f := r.failf("wait/never-returned", "a Wait call whose marker was applied did not return within 10 s")
+			f.Sticky = true
+			return f
+		}
+	}
 	r.collect()
 	// settled time for reclamation bound
 	if item.entry != nil && (item.code == NEW || item.code == UPDATE) {
@@ -607,7 +661,13 @@ func execPipelineInner(c plCase, x *verifkit.Ctx, accounting, notify, reclaim bo
 	}
 	r.s = NewStore[int, int](&StoreOptions[int, int]{
 		MaxSize: int64(c.MaxSize), EntryPool: c.Pool, Doorkeeper: c.Doorkeeper,
-		Listener: func(k, v int, reason RemoveReason) { r.calls = append(r.calls, plCall{k, v, reason}) },
+		Listener: func(k, v int, reason RemoveReason) {
+			r.calls = append(r.calls, plCall{k, v, reason})
+			r.nCalls.Add(1)
+			if r.slow.Load() {
+				time.Sleep(300 * time.Microsecond)
+			}
+		},
 	})
 	r.s.mask = 0 // every hit goes to stripe 0: the 16th hit drains deterministically
 	if c.Loading {
@@ -856,6 +916,36 @@ func TestVerifC04Pipeline(t *testing.T) {
 			return execPipeline(c, x, false, true, true)
 		},
 		Rule:        "C04(b): pipeline-owner store with TTLs on every wheel level and ticks of ~1 s / irregular / huge jumps; after each tick no resident entry whose events have been applied may be more than one finest tick (2^30 ns) past max(deadline, time its last event was applied); EXPIRED is never reported before the deadline; non-trivial as for C02",
+		Assumptions: plAssumptions,
+	})
+}
+
+// C20 (pipeline tier): the C02 generator with every delivered batch also carrying the marker of a
+// real Wait call. The caller records the number of notifications delivered and Len the moment it
+// is woken; both must equal their values at the end of the batch.
+func TestVerifC20Pipeline(t *testing.T) {
+	vkOwnPipeline()
+	gen := genPipeline(func(*rapid.T) bool { return false }, true)
+	verifkit.Run(t, verifkit.Spec[plCase]{
+		ID: "C20",
+		Gen: func(t *rapid.T) plCase {
+			c := gen(t)
+			c.WaitMarker = true
+			return c
+		},
+		Exec: func(c plCase, x *verifkit.Ctx) *verifkit.Failure {
+			f := execPipeline(c, x, true, true, false)
+			if f == nil && !x.Excluded() {
+				x.NonTrivial()
+			}
+			return f
+		},
+		// the overlap behind defect d8f29c8: cost updates of a key arrive out of order, other keys fill the
+		// apparent room, the key is deleted: the total rises above capacity when its REMOVE event is applied
+		Fixed: []plCase{{MaxSize: 3, Pending: 3, Keys: 4, WaitMarker: true, Order: []int{1, 0, 0, 0, 0, 0},
+			Steps: []plStep{{Op: "set", K: 3, Cost: 1}, {Op: "set", K: 3, Cost: 3}, {Op: "set", Cost: 1}, {Op: "set", K: 3, Cost: 1},
+				{Op: "set", K: 1, Cost: 3, I: 1}, {Op: "del", K: 3, I: 1}, {Op: "deliver", I: 1}}}},
+		Rule:        "C20 (pipeline tier): the C02/C05 pipeline-owner generator (event arrival orders, ticks, expiry races); every delivered event travels in one batch with the marker of a real Wait call, and the removal listener is slow (300 us) while that batch is applied; the Wait caller records the number of notifications delivered and Len the moment it returns, which must equal their values at the end of the batch (no eviction caused by earlier writes may happen after Wait returned); the C02 and C05 oracles run as well; one fixed case reproduces the overlap in which applying a Delete's event raises the policy total above capacity",
 		Assumptions: plAssumptions,
 	})
 }
